@@ -3412,7 +3412,12 @@ impl Connection {
             );
             NewConnectionId {
                 sequence: issued.sequence,
-                retire_prior_to: self.local_cid_state.retire_prior_to(),
+                // A retransmission of a CID that has meanwhile fallen below `retire_prior_to` must
+                // still be a valid frame: the field may not exceed the sequence number
+                retire_prior_to: self
+                    .local_cid_state
+                    .retire_prior_to()
+                    .min(issued.sequence),
                 id: issued.id,
                 reset_token: issued.reset_token,
             }
